@@ -311,7 +311,8 @@ def tyExpr : Ty → Val
   | .callable none ret blk => callableVal [] (tyExprOpt blk) (tyExprOpt ret)
   | .callable (some (ts, sz)) ret blk => callableVal (tyExprsNU ts ++ tupleSizeVals ts.isEmpty sz) (tyExprOpt blk) (tyExprOpt ret)
   | .runtime rt name pat =>
-    if rt.isEmpty then tname .runtime []
+    -- `RuntimeType.Parameters`: nothing for the default Runtime only (since fix 1cd0d3f an empty runtime name is printed)
+    if rt.isEmpty ∧ name.isEmpty ∧ pat.isNone then tname .runtime []
     else
       tname .runtime (Val.str rt :: ((if name.isEmpty then [] else [Val.str name]) ++
         (match pat with
